@@ -74,6 +74,7 @@ struct CommitView {
 
 static CR_MULTI: AtomicU64 = AtomicU64::new(0);
 static CR_MERGE: AtomicU64 = AtomicU64::new(0);
+static LINK_WITH_PERMS: AtomicU64 = AtomicU64::new(0);
 
 fn check_commit(bytes: &[u8], git_id: ObjectId) -> Result<String, String> {
     let show = || bytes.as_bstr();
@@ -359,7 +360,7 @@ fn check_tree(bytes: &[u8], git_id: ObjectId) -> Result<String, String> {
         let mode = u16::from_str_radix(std::str::from_utf8(&rest[..sp]).unwrap_or("x"), 8).unwrap_or_else(|_| vkit::machinery!("reference: bad mode"));
         let e = full.entries.get(n).ok_or_else(|| format!("fields: decoder reports {} entries, the tree has more", full.entries.len()))?;
         if e.mode.0 != mode || e.filename != rest[sp + 1..nul].as_bstr() || e.oid.as_bytes() != &rest[nul + 1..nul + 21] {
-            return Err(format!("fields: entry {n} decoded as {e:?} from {:?}", rest[..nul + 21].as_bstr()));
+            return Err(format!("fields: entry {n} decoded as mode {:o} name {:?} id {} from {:?}", e.mode.0, e.filename, e.oid, rest[..nul + 21].as_bstr()));
         }
         rest = &rest[nul + 21..];
         n += 1;
@@ -573,6 +574,33 @@ struct RawCase {
     mktag: bool,
 }
 
+/// one tree whose entry `m` has the given raw mode (octal text as handed to `git mktree`)
+#[derive(Serialize, Deserialize, Hash, Clone, Debug)]
+struct ModeCase {
+    mode: String,
+    /// also add a regular file `a` before and an executable `z` after it
+    neighbours: bool,
+}
+impl ModeCase {
+    fn value(&self) -> u32 {
+        u32::from_str_radix(&self.mode, 8).unwrap_or_else(|_| vkit::machinery!("case mode {:?} is not octal", self.mode))
+    }
+    fn tree(&self) -> TreeCase {
+        let v = self.value();
+        let ty = match v & 0o170000 {
+            0o040000 => "tree",
+            0o160000 => "commit",
+            _ => "blob",
+        };
+        let mut entries = vec![(format!("{} {ty}", self.mode), B(b"m".to_vec()))];
+        if self.neighbours {
+            entries.insert(0, ("100644 blob".into(), B(b"a".to_vec())));
+            entries.push(("100755 blob".into(), B(b"z".to_vec())));
+        }
+        TreeCase { entries }
+    }
+}
+
 #[derive(Serialize, Deserialize, Hash, Clone, Debug)]
 struct TreeCase {
     entries: Vec<(String, B)>,
@@ -596,6 +624,7 @@ pub fn run(run: &'static Run) {
          sub commit-raw: commits with header blocks git emits elsewhere (mergetag, several extra headers, gpgsig-sha256, HG:* headers, encoding before extras) validated and stored by `git hash-object -t commit -w --stdin-paths`; \
          sub tag: kind {commit,tree,blob} x 6 names x tagger {none + 5} x 9 messages x 6 signature blocks (full product for the first kind/name, a slice for the others), created by `git mktag` (strict; --no-strict without tagger) for every 4th (quick: 12th) case and by `git hash-object -t tag -w` for the rest; \
          sub tree: `git mktree -z --missing` over names with spaces, quotes, LF, unicode, 0xff and modes 100644 100755 100664 120000 40000 160000; \
+         sub tree-modes: every type nibble 0..=17 (octal) x permission bits {0, 644, 755, 664, 777, 7777, 1} as entry mode, alone and between two ordinary entries, stored verbatim by `git mktree` (dir/file/symlink/gitlink types must round-trip; for type bits git has no meaning for only agreement of the two decoders, and verbatim re-encoding if accepted, is demanded); \
          sub merge: real `git tag -s` + `git merge --no-ff <tag>` (+ `commit --amend`, `-S`) in a scratch repository -> mergetag headers written by git. \
          oracle per object: full decoder and token iterator both accept, same fields, fields equal git's header grammar (key SP value, SP-continuation, first empty line), \
          write_to(Ref) == write_to(owned) == original bytes, size() == length, id == git's id, CommitRefIter::signature == gpgsig header and signed data == object without it. \
@@ -923,6 +952,84 @@ pub fn run(run: &'static Run) {
             verdict(check_tree(&bytes, oid(&id)))
         },
     );
+
+    // ---------------- tree entry modes: every type nibble x permission patterns, stored verbatim by git mktree ----------------
+    let mode_ids = IdMap::default();
+    run.sub_with(
+        "tree-modes",
+        vkit::Opts::default().chunk(256),
+        |emit| {
+            let mut cases = Vec::new();
+            for ty in 0..16u32 {
+                for perm in [0u32, 0o644, 0o755, 0o664, 0o777, 0o7777, 0o1] {
+                    for neighbours in [false, true] {
+                        cases.push(ModeCase { mode: format!("{:o}", ty << 12 | perm), neighbours });
+                    }
+                }
+            }
+            let mut all = Vec::new();
+            for c in &cases {
+                all.extend_from_slice(&mktree_input(&c.tree()));
+                all.push(0);
+            }
+            let out = vkit::git::git_in(&fx.repo, &["mktree", "-z", "--missing", "--batch"], &all);
+            let ids: Vec<String> = out.lines().map(|l| String::from_utf8_lossy(l).into_owned()).collect();
+            if ids.len() != cases.len() {
+                vkit::machinery!("git mktree --batch printed {} ids for {} trees", ids.len(), cases.len());
+            }
+            if let Ok(mut m) = mode_ids.write() {
+                m.extend(cases.iter().map(|c| mktree_input(&c.tree())).zip(ids));
+            }
+            run.cov_add("oracle_calls_git", 1);
+            for c in cases {
+                emit(c);
+            }
+        },
+        |c: &ModeCase| -> Verdict {
+            let input = mktree_input(&c.tree());
+            let id = lookup(&mode_ids, &input).unwrap_or_else(|| {
+                let o = vkit::git::try_git_in(&fx.repo, &["mktree", "-z", "--missing"], &input);
+                if !o.ok {
+                    vkit::machinery!("git mktree refused mode {}: {}", c.mode, o.err_text());
+                }
+                o.text()
+            });
+            let bytes = fx.cat("tree", &id);
+            let v = c.value();
+            // git stores the number it was given (printed with %o)
+            if !bytes.contains_str(format!("{:o} m\0", v)) {
+                vkit::machinery!("git mktree did not store mode {:o} verbatim: {:?}", v, bytes.as_bstr());
+            }
+            let kind = match v & 0o170000 {
+                0o040000 => "dir",
+                0o100000 => "file",
+                0o120000 => "symlink",
+                0o160000 => "gitlink",
+                _ => "unknown-type",
+            };
+            let perm = match v & 0o7777 {
+                0 => "perm-0",
+                0o644 | 0o755 => "perm-usual",
+                _ => "perm-unusual",
+            };
+            if matches!(kind, "symlink" | "gitlink") && v & 0o7777 != 0 {
+                LINK_WITH_PERMS.fetch_add(1, Relaxed);
+            }
+            if kind != "unknown-type" {
+                // the four object types git knows: in the property's domain, must decode in both parsers and re-encode verbatim
+                return verdict(check_tree(&bytes, oid(&id)).map(|_| format!("tree-mode/{kind}/{perm}")));
+            }
+            // type bits git has no meaning for (git mktree stores them, git fsck calls them badFilemode): only consistency is demanded
+            let full = TreeRef::from_bytes(&bytes).is_ok();
+            let it = TreeRefIter::from_bytes(&bytes).entries().is_ok();
+            match (full, it) {
+                (false, false) => vkit::ok_trivial("tree-mode/unknown-type/refused-by-both-decoders"),
+                (true, true) => verdict(check_tree(&bytes, oid(&id)).map(|_| "tree-mode/unknown-type/accepted-verbatim".to_string())),
+                _ => bad("decoders-disagree", format!("mode {:o}: TreeRef::from_bytes accepts = {full}, TreeRefIter accepts = {it}", v)),
+            }
+        },
+    );
+    run.require("symlink/gitlink entries with permission bits were decoded", LINK_WITH_PERMS.load(Relaxed) > 0);
 
     // ---------------- merge of a signed tag: mergetag written by git itself ----------------
     run.sub_with(
